@@ -234,6 +234,36 @@ theorem nli_perm (len : ℝ) (cs cs' : List (LCh ℝ)) (hp : cs.Perm cs')
   rw [this]
   exact hp.map _
 
+/-- the constructor's sort makes the supplied order irrelevant: two supplies of the same channels (pairwise distinct
+frequencies) are sorted into the same list -/
+theorem sortByF_eq_of_perm (l l' : List (ℝ × ℝ × ℝ)) (hp : l.Perm l')
+    (hd : l.Pairwise (fun a b => a.1 ≠ b.1)) : sortByF l = sortByF l' := by
+  have hd' : l'.Pairwise (fun a b => a.1 ≠ b.1) :=
+    (hp.pairwise_iff (fun {a b} (h : a.1 ≠ b.1) => h.symm)).1 hd
+  apply List.Perm.eq_of_pairwise (le := fun a b => a.1 < b.1)
+  · intro a b _ _ h1 h2; exact absurd h1 (lt_asymm h2)
+  · exact sortByF_sorted l hd
+  · exact sortByF_sorted l' hd'
+  · exact (sortByF_perm l).trans (hp.trans (sortByF_perm l').symm)
+
+/-- **constructor + `compute_nli` does not depend on the order in which the channels were supplied** -/
+theorem input_order_irrelevant (fib : Fibre ℝ) (l l' : List (ℝ × ℝ × ℝ)) (hp : l.Perm l')
+    (hd : l.Pairwise (fun a b => a.1 ≠ b.1)) : computeNliAny fib l = computeNliAny fib l' := by
+  simp only [computeNliAny, sortByF_eq_of_perm l l' hp hd]
+
+/-- a comb supplied in ascending frequency is left as it is -/
+theorem sortByF_sorted_id : ∀ (l : List (ℝ × ℝ × ℝ)), l.Pairwise (fun a b => a.1 < b.1) → sortByF l = l := by
+  intro l
+  induction l with
+  | nil => intro _; rfl
+  | cons c rest ih =>
+    intro h
+    rw [List.pairwise_cons] at h
+    simp only [sortByF, ih h.2]
+    cases rest with
+    | nil => rfl
+    | cons d rest' => simp [insertByF, h.1 d (by simp)]
+
 /-! ### the fibre coefficients -/
 
 /-- `alpha = loss[dB/m] · ln 10 / 10` -/
